@@ -107,8 +107,12 @@ def sample_rules(ctx: Context) -> None:
     head = [x for x in g.live if x.kind == "for" and x.stmt is loop][0]
     brks = [x for x in g.live if x.kind == "break"]
     rets_in_loop = [r for r in rets if in_loop(r)]
-    ctx.check(len(brks) == 1 and not rets_in_loop, "D6.exits", "BaseSampler.sample:loop-exits", "one break, no return inside the loop",
+    # `return <the batch>` inside the loop is the same early exit as `break` followed by the final `return <the batch>`
+    same_value_rets = [r for r in rets_in_loop if isinstance(r.value, ast.Name) and r.value.id == batch and all(isinstance(q.value, ast.Name) and q.value.id == batch for q in rets)]
+    early = brks + [x for r in same_value_rets for x in g.nodes_of(r)]
+    ctx.check(len(early) == 1 and len(same_value_rets) == len(rets_in_loop), "D6.exits", "BaseSampler.sample:loop-exits", "one early exit (break, or return of the batch) inside the loop",
               f"{len(brks)} breaks and {len(rets_in_loop)} returns inside the loop", f, loop)
+    brks = early
     zero_forms = {n.canon(parse_expr(t)) for t in (f"len({dup}) == 0", f"0 == len({dup})", f"len({dup}) < 1", f"len({dup}) <= 0")} if dup else set()
     for b in brks:
         deps = {(t, lab) for t, lab in g.control_closure(b, head) if t.kind == "test"}
@@ -192,7 +196,8 @@ def finder_rules(ctx: Context) -> None:
               f"positions computed by `{src(aw[0])}`", f, aw[0])
     # groups iterated are the repeated ones
     for r in returns_of(f):
-        ok = isinstance(r.value, ast.Name)
+        # the collected positions, held in a local or written as the comprehension that collects them
+        ok = isinstance(r.value, ast.Name) or any(x is aw[0] for x in ast.walk(r.value))
         ctx.check(ok, "D7.return", "find_and_get_duplicates:return", "returns the list of positions", f"returns `{src(r.value)}`", f, r)
 
 
